@@ -784,6 +784,60 @@ B('C18', 'mismatch-filter-abs', RI,
   "    if len([v for v in rodded_regs if v != 0]) > 1:",
   "    if len([v for v in rodded_regs if not v == 0]) > 1:")
 
+
+# ---------------------------------------------------------------- after wave d
+M('C03', 'duct-always-in-total', PW,
+  "            if self.duct_power is not None:\n"
+  "                p_duct = np.dot(self.duct_power[kf], z_exp.T)\n",
+  "            if self.pin_power is not None:\n"
+  "                p_duct = np.dot(self.duct_power[kf], z_exp.T)\n",
+  'C03.R3')
+M('C03', 'skip-when-pins-absent', PW,
+  "        if all(v is None for v in\n"
+  "               (self.pin_power, self.coolant_power, self.duct_power)):\n",
+  "        if self.pin_power is None:\n", 'C03.R3')
+B('C03', 'skip-guard-spelled-out', PW,
+  "        if all(v is None for v in\n"
+  "               (self.pin_power, self.coolant_power, self.duct_power)):\n",
+  "        if (self.pin_power is None and self.coolant_power is None\n"
+  "                and self.duct_power is None):\n")
+M('C09', 'mirror-link-dropped', CO,
+  "                        # For the sc in next index; map the sc in current index\n"
+  "                        sc = asm_sc[side][sci + 1]\n"
+  "                        if asm_sc[side][sci] not in sc_adj[sc - 1]:\n"
+  "                            idx = np.where(sc_adj[sc - 1] == 0)[0][0]\n"
+  "                            sc_adj[sc - 1, idx] = asm_sc[side][sci]\n",
+  "", 'C09.R6')
+M('C12', 'grid-loss-scaled-by-length', FC,
+  "        t = ff * L_over_Dei + GLC_i\n",
+  "        t = (ff + GLC_i) * L_over_Dei\n", 'C12.R8')
+M('C12', 'mass-conservation-weights', FC,
+  "        x2_new = 1 / (s[1] + s[0] * x1x2 + s[2] * x3x2)\n",
+  "        x2_new = 1 / (s[1] + s[0] * x3x2 + s[2] * x1x2)\n", 'C12.R8')
+M('C15', 'duct-slots-from-last-region', AS,
+  "            max([len(reg.duct_ftf) if reg.is_rodded else 1\n"
+  "                 for reg in self.region]))]\n",
+  "            len(self.region[-1].duct_ftf) if self.region[-1].is_rodded\n"
+  "            else 1)]\n", 'C15.R7')
+M('C19', 'expression-other-column', HS,
+  "        evalated_expr = _eval_expr(expr_dict[k], dT_in[:, k[2]])\n",
+  "        evalated_expr = _eval_expr(expr_dict[k], dT_in[:, k[1]])\n",
+  'C19.R6')
+M('C07', 'bypass-partners-forward-only', RR,
+  "                    if 3 <= type_a <= 4:\n                        continue\n",
+  "                    if 3 <= type_a <= 4 or adj - start < sci:\n"
+  "                        continue\n", 'C07.R5')
+M('C01', 'region-bound-shifted', AS,
+  "            z0 = self.region[j].z[1]\n",
+  "            z0 = self.region[j].z[1] - 1e-9\n", 'C01.R10')
+M('C14', 'flags-swapped-rodded-factory', AS,
+  "                                   se2geo,\n"
+  "                                   param_update_tol,\n"
+  "                                   gravity)",
+  "                                   gravity,\n"
+  "                                   param_update_tol,\n"
+  "                                   se2geo)", 'C14.R9')
+
 os.makedirs(os.path.join(HERE, 'selftest'), exist_ok=True)
 tot = 0
 for prop, entries in sorted(C.items()):
